@@ -297,6 +297,11 @@ def port_mod(b):
   msk, mskbits = b.bits("pm.mask", 7)
   m, xid = request(b, of.ofp_port_mod, port_no=pno, hw_addr=b.new(EthAddr, hw), config=cfg, mask=msk, advertise=0)
   old = pv[0]["cbits"]
+  # representation invariant of the software switch: "the link state depends only on the configuration"
+  # (switch.py, _set_port_config_bit): LINK_DOWN == PORT_DOWN.  The two link-state clauses below go beyond the
+  # property's statement and only make sense for ports that satisfy it (2026-09-25: without it they fail for a port
+  # created with config up / link down, where a port-mod that changes nothing leaves the link state alone).
+  b.assume(pv[0]["sbits"][0] == old[0])
   def cfgbit(i):
     return (pv[0]["obj"].config >> i) % 2
   return Case(SoftwareSwitchBase._rx_port_mod, [sw, m, con], calls=con_calls(b), ensures={
